@@ -353,6 +353,7 @@ class Report:
                 replay['property'] = self.pid
                 replay['what'] = what
                 replay['seed'] = self.seed
+                replay['tier'] = self.tier
                 with open(path, 'w') as f:
                     json.dump(replay, f, indent=1, default=str)
                 print('VIOLATION property=%s replay=%s%s' % (self.pid, path, ' no-failing-input-found' if no_input else ''))
